@@ -77,6 +77,29 @@ def setup():
 
 # ---------------------------------------------------------------- generators
 
+
+class _Shared:
+    """One list object per edge collection and case, handed to *every* call of that case: callers reuse their edge
+    lists, so a solver that edits its input in place shows up as a wrong answer of a later call."""
+
+    def __init__(self):
+        self.d = {}
+
+    def reset(self):
+        self.d = {}
+
+    def get(self, seq):
+        k = id(seq)
+        if k not in self.d:
+            self.d[k] = (seq, list(seq))
+        return self.d[k][1]
+
+    def modified(self):
+        return sum(1 for src, cp in self.d.values() if list(src) != cp)
+
+
+_SH = _Shared()
+
 def _labels(rng, n):
     scheme = rng.choice(["int", "int", "str", "tuple", "mixed", "frozenset", "shuffled", "offset", "falsy"])
     if scheme == "int":
@@ -666,10 +689,10 @@ def _run_graph(case, obs):
     for be in (None, "python"):
         kw = {"backend": be} if be else {}
         tag = be or "default"
-        res = call(obs, de, n, list(arcs), s, target=t, what=f"dijkstra_edges[{tag}]", budget=B, **kw)
+        res = call(obs, de, n, _SH.get(arcs), s, target=t, what=f"dijkstra_edges[{tag}]", budget=B, **kw)
         if not is_crash(res):
             J.target_query(f"dijkstra_edges[{tag}]", res, s, [t], d_t, key_t, labelled=False)
-        res = call(obs, de, n, list(arcs), s, what=f"dijkstra_edges[{tag},all]", budget=B, **kw)
+        res = call(obs, de, n, _SH.get(arcs), s, what=f"dijkstra_edges[{tag},all]", budget=B, **kw)
         if not is_crash(res):
             _judge_dist_map(obs, f"dijkstra_edges[{tag},all]", res, D[s], J, ("w", s))
         _bf_fw(obs, J, bf, fw, n, arcs, s, t, D, False, [False] * n, kw, tag, "w", B)
@@ -715,10 +738,10 @@ def _run_graph(case, obs):
         for be in (None, "python"):
             kw = {"backend": be} if be else {}
             tag = be or "default"
-            res = call(obs, fe, n, list(e2), s, target=t, what=f"{fname}_edges[{tag}]", budget=B, **kw)
+            res = call(obs, fe, n, _SH.get(e2), s, target=t, what=f"{fname}_edges[{tag}]", budget=B, **kw)
             if not is_crash(res):
                 J.target_query(f"{fname}_edges[{tag}]", res, s, [t], H[t], ("u", s, (t,)), labelled=False, shortest=sh, widx=uwidx)
-            res = call(obs, fe, n, list(e2), s, what=f"{fname}_edges[{tag},all]", budget=B, **kw)
+            res = call(obs, fe, n, _SH.get(e2), s, what=f"{fname}_edges[{tag},all]", budget=B, **kw)
             if not is_crash(res):
                 obs.event("reach.set")
                 if res.solution != sorted(reach) or status_name(res) not in _OK:
@@ -785,7 +808,7 @@ def _bf_fw(obs, J, bf, fw, n, arcs, s, t, D, neg_any, neg_reach, kw, tag, fam, B
     for target in (t, None):
         who = f"bellman_ford[{tag},{'target' if target is not None else 'all'}]"
         tk = {"target": target} if target is not None else {}
-        res = call(obs, bf, s, list(arcs), n, what=who, budget=B, **tk, **kw)
+        res = call(obs, bf, s, _SH.get(arcs), n, what=who, budget=B, **tk, **kw)
         if is_crash(res):
             continue
         st = status_name(res)
@@ -806,7 +829,7 @@ def _bf_fw(obs, J, bf, fw, n, arcs, s, t, D, neg_any, neg_reach, kw, tag, fam, B
     # floyd_warshall
     for directed in (True, False):
         who = f"floyd_warshall[{tag},{'directed' if directed else 'undirected'}]"
-        res = call(obs, fw, n, list(arcs), directed=directed, what=who, budget=B, **kw)
+        res = call(obs, fw, n, _SH.get(arcs), directed=directed, what=who, budget=B, **kw)
         if is_crash(res):
             continue
         st = status_name(res)
@@ -935,9 +958,12 @@ def _run_grid(case, obs):
 
 def run(case, obs):
     obs.mode("exact")
+    _SH.reset()
     try:
         if case["kind"] == "g":
             obs.nontrivial = _run_graph(case, obs)
+            if _SH.modified():
+                obs.event("info.edge-list-modified-in-place")
         else:
             obs.nontrivial = _run_grid(case, obs)
     except _G.OracleError as e:
